@@ -208,6 +208,10 @@ def monitor(ops, outs):
                     con["pend"] = None
         # ---- the planned event: anchor + k intervals, window, interval given to the radio
         ts, a, b, ivarg = int(f["ts"]), *[int(x) for x in f["win"].split(",")]
+        # ranges of the invariant (no_delta_time_assert_in_any_history): time since the anchor below supervision
+        # timeout + one interval (32 s + 4 s), the window ordered and ending before 41 s (far from 2^32 us)
+        if not (ts < 36000000 and 0 <= a <= b < 41000000 and int(f.get("proc", 0)) < 2 ** 32 and int(f["sca"]) <= 1000):
+            hit(k, "C22:timing-state-outside-proved-range", out)
         if ts != con["ts"]:
             hit(k, "C22:not-anchor-plus-k-intervals",
                 "planned event E=%s is %d us after the last anchor, the connection parameters say %d us (%s)" % (f["E"], ts, con["ts"], out))
@@ -407,14 +411,16 @@ PROPS = {
                   "BluetoeModel.Timing.connect_only_if_valid_partial",
                   "BluetoeModel.Timing.valid_connect_accepted",
                   "BluetoeModel.Timing.refused_connect_keeps_advertising",
-                  "BluetoeModel.Timing.update_only_if_valid_partial"],
+                  "BluetoeModel.Timing.update_only_if_valid_partial",
+                  "BluetoeModel.Timing.no_delta_time_assert_in_any_history",
+                  "BluetoeModel.Timing.planned_times_fit_32_bit"],
         witnesses=["BluetoeModel.Timing.window_widening_witness",
                    "BluetoeModel.Timing.connect_only_if_valid_witness"],
         run=run_c22,
         level="proof",
         technique="Lean 4 proofs over all parameters, sleep clock accuracies and histories of lost events (32-bit delta_time arithmetic with explicit assertion results, induction over the number of lost events) + differential correspondence with the real link_layer<> on test_radio and an independent monitor",
-        level_text="Theorems for every CONNECT_IND / LL_CONNECTION_UPDATE_IND field value, every SCA and device accuracy, every number of lost events: ppm() is floor(u*p/10^6) or one less without 64-bit overflow; the window given to the radio covers the anchor (or the transmit window) and is widened by at least floor(T*sca/10^6)-1 us at either edge; after an event the next one is planned l intervals later (1 <= l <= latency+1) and after k lost events k intervals more, with the window for exactly that distance; timeout() ends the link only by the procedure timer, at timeSince >= supervision timeout, at the sixth lost event of a never established connection, or through a refused update at its instant (and always ends it at timeSince >= supervision timeout); a CONNECT_IND / update is accepted iff the Core-spec validity predicate holds or WinSize = Interval in 6..8 (known finding); a refused CONNECT_IND leaves the next advertising PDU scheduled. The model is the patched code (fixes timing-01, timing-02).",
-        level_note="Trusted: Lean kernel + propext/Quot.sound/Classical.choice; model = code as far as the differential check samples it (every state line after every radio event, exhaustive boundary grid of the five parameters in the thorough tier). Full-strength 'widened by at least the drift' is false by < 1.0003 us (window_widening_witness, known finding, pinned by repository tests); 'only valid parameters' is false for WinSize = Interval (connect_only_if_valid_witness, known finding, pinned by repository tests). Not proved: a global invariant that no delta_time assertion can fail in any history (the theorems carry the needed range hypotheses, which valid parameters satisfy; the harness runs with assertions enabled and ASan/UBSan). CRC errors / what counts as a 'valid packet' is the radio's business: end_event() is taken as 'a valid packet was received'.",
+        level_text="Theorems for every CONNECT_IND / LL_CONNECTION_UPDATE_IND field value, every SCA and device accuracy, every number of lost events: ppm() is floor(u*p/10^6) or one less without 64-bit overflow; the window given to the radio covers the anchor (or the transmit window) and is widened by at least floor(T*sca/10^6)-1 us at either edge; after an event the next one is planned l intervals later (1 <= l <= latency+1) and after k lost events k intervals more, with the window for exactly that distance; timeout() ends the link only by the procedure timer, at timeSince >= supervision timeout, at the sixth lost event of a never established connection, or through a refused update at its instant (and always ends it at timeSince >= supervision timeout); a CONNECT_IND / update is accepted iff the Core-spec validity predicate holds or WinSize = Interval in 6..8 (known finding); a refused CONNECT_IND leaves the next advertising PDU scheduled; inductive invariant over every history of callbacks (base: parameters accepted by check_timing_paremeters, step: every callback): no delta_time assertion, time_since_last_event_ < 36 s, every window ordered, < 41 s and computed with exact ppm() (no 64-bit overflow), all members within their C++ widths. The model is the patched code (fixes timing-01, timing-02).",
+        level_note="Trusted: Lean kernel + propext/Quot.sound/Classical.choice; model = code as far as the differential check samples it (every state line after every radio event, exhaustive boundary grid of the five parameters in the thorough tier). Full-strength 'widened by at least the drift' is false by < 1.0003 us (window_widening_witness, known finding, pinned by repository tests); 'only valid parameters' is false for WinSize = Interval (connect_only_if_valid_witness, known finding, pinned by repository tests). no_delta_time_assert_in_any_history assumes the device's own accuracy <= 500 ppm and PDU field widths, nothing else (no bound on lost events: timeout() bounds time_since_last_event_ itself); it covers the delta_time operations of the modelled callbacks (adv_received, end_event, timeout, handle_pending_ll_control, setup_next_connection_event), not the user timer, try_event_cancelation (C21/C23) or the peripheral's own LL procedures; the harness runs with assertions enabled and ASan/UBSan. CRC errors / what counts as a 'valid packet' is the radio's business: end_event() is taken as 'a valid packet was received'.",
         design_ref="§5 C22",
         assumptions=["test_radio as the scheduled radio; its own time line is not compared (the harness reads the arguments of schedule_connection_event)",
                      "channel map and hop of the CONNECT_IND valid (C20), central passes the filter policy (C25/C26)",
